@@ -31,13 +31,12 @@ def tailOfString : String → Option Tail
   | "err" => some .err
   | _ => none
 
-/-- Split `xs` into chunks of the given sizes; whatever remains is one last chunk;
-zero sizes are skipped (sources never hand out empty reads). -/
+/-- Split `xs` into chunks of the given sizes; whatever remains is one last chunk.
+A zero size is an empty message of a message transport: an empty chunk (`Read` returns `(0, nil)`). -/
 def chunkBy : List Nat → Bytes → List Bytes
   | [], bs => if bs.isEmpty then [] else [bs]
   | n :: ns, bs =>
     if bs.isEmpty then []
-    else if n = 0 then chunkBy ns bs
     else bs.take n :: chunkBy ns (bs.drop n)
 
 /-- Take `n` tokens. -/
